@@ -151,27 +151,78 @@ def _build(case):
     return bld.all_nodes()
 
 
+def _query16(nodes):
+    """Run every query C16 speaks about on every node / ordered pair and hand back the RAW results (the objects
+    the library returned, iterators materialised to lists of the yielded tuples)."""
+    from bigtree.utils.iterators import dag_iterator
+
+    raw = {"iter": [list(dag_iterator(s)) for s in nodes],
+           "anc": [n.ancestors for n in nodes],
+           "desc": [n.descendants for n in nodes],
+           "sib": [n.siblings for n in nodes],
+           "par": [n.parents for n in nodes],
+           "kid": [n.children for n in nodes],
+           "goto": []}
+    for a in nodes:
+        row = []
+        for b in nodes:       # several targets from the same start node, one after the other
+            try:
+                row.append([0, a.go_to(b)])
+            except Exception as e:
+                row.append([exn_code(e), None])
+        raw["goto"].append(row)
+    return raw
+
+
+def _canon16(nodes, raw):
+    idx = {id(n): i for i, n in enumerate(nodes)}
+    return {"iter": [[[idx[id(p)], idx[id(c)]] for p, c in o] for o in raw["iter"]],
+            "anc": [[idx[id(a)] for a in o] for o in raw["anc"]],
+            "desc": [[idx[id(a)] for a in o] for o in raw["desc"]],
+            "sib": [[idx[id(a)] for a in o] for o in raw["sib"]],
+            "par": [[idx[id(a)] for a in o] for o in raw["par"]],
+            "kid": [[idx[id(a)] for a in o] for o in raw["kid"]],
+            "goto": [[[code, [[idx[id(x)] for x in p] for p in ps] if code == 0 else []] for code, ps in row]
+                     for row in raw["goto"]]}
+
+
+def _spoil(raw):
+    """what a caller may do with results it owns: empty / extend every list it was handed"""
+    for key in ("iter", "anc", "desc", "sib", "par", "kid"):
+        for o in raw[key]:
+            if isinstance(o, list):
+                o.clear()
+                o.append(None)
+    for row in raw["goto"]:
+        for code, ps in row:
+            if isinstance(ps, list):
+                for p in ps:
+                    if isinstance(p, list):
+                        p.clear()
+                ps.clear()
+                ps.append([])
+
+
 def _observe16(nodes):
-    """Everything C16 speaks about, on the DAG as it stands now (all nodes are queried, so that any state a
-    query leaves behind in the objects is in place when construction continues)."""
+    """Everything C16 speaks about, on the DAG as it stands now.  All nodes and all ordered pairs are queried (so
+    that any state a query leaves behind is in place when construction continues); ALL results are kept alive and
+    read only after the last query of the round, so a result that a later query alters is observed altered; then
+    the caller's copies are emptied / extended and every query is repeated: the answers must be the same."""
     from bigtree.utils.iterators import dag_iterator
 
     idx = {id(n): i for i, n in enumerate(nodes)}
     links = _links(nodes)
-    it = [[[idx[id(p)], idx[id(c)]] for p, c in dag_iterator(s)] for s in nodes]
-    anc = [[idx[id(a)] for a in n.ancestors] for n in nodes]
-    desc = [[idx[id(a)] for a in n.descendants] for n in nodes]
-    sib = [[idx[id(a)] for a in n.siblings] for n in nodes]
-    goto = []
-    for a in nodes:
-        row = []
-        for b in nodes:
-            try:
-                ps = a.go_to(b)
-                row.append([0, [[idx[id(x)] for x in p] for p in ps]])
-            except Exception as e:
-                row.append([exn_code(e), []])
-        goto.append(row)
+    raw = _query16(nodes)
+    first = _canon16(nodes, raw)          # read after the whole round
+    _spoil(raw)
+    raw2 = _query16(nodes)
+    second = _canon16(nodes, raw2)
+    if second != first:
+        bad = [k for k in first if first[k] != second[k]]
+        raise RuntimeError("repeating the queries after emptying the earlier results gave different answers: " + ",".join(bad))
+    if first["par"] != [l[0] for l in links] or first["kid"] != [l[1] for l in links]:
+        raise RuntimeError("the parents / children views changed during the queries")
+    it, anc, desc, sib, goto = first["iter"], first["anc"], first["desc"], first["sib"], first["goto"]
     if _links(nodes) != links:
         raise RuntimeError("a query changed the links of the DAG")
     # several iterators advanced in turn must not disturb each other
@@ -248,9 +299,26 @@ def _rebuild(fn, *args, node_type=None, **kw):
         return {"code": exn_code(e), "names": [], "edges": [], "attrs": []}
     o = _observe_dag(r)
     order = o.pop("_nodes")
+    o["_root"] = r
     if node_type is not None:
         o["_all_instances"] = all(type(x) is node_type for x in order)
     return o
+
+
+def _snapshot(x):
+    """a deep, comparable picture of a constructor input (list / tuple / dict / DataFrame)"""
+    if hasattr(x, "to_dict") and hasattr(x, "columns"):
+        return ("frame", [repr(c) for c in x.columns], [repr(i) for i in x.index],
+                [[repr(v) for v in row] for row in x.itertuples(index=False, name=None)], [str(t) for t in x.dtypes])
+    if isinstance(x, dict):
+        return ("dict", [(k, _snapshot(v)) for k, v in x.items()])
+    if isinstance(x, (list, tuple)):
+        return (type(x).__name__, [_snapshot(v) for v in x])
+    return repr(x)
+
+
+def _graph_key(r):
+    return (r["code"], sorted(r["names"]), sorted(map(tuple, r["edges"])), sorted((nm, tuple(a)) for nm, a in r["attrs"]))
 
 
 def run_impl(prop, case):
@@ -264,10 +332,6 @@ def run_impl(prop, case):
             if k in cps and k != len(case["ops"]) - 1:
                 snaps.append(_observe16(bld.all_nodes()))
         snaps.append(_observe16(bld.all_nodes()))
-        # a second look at the finished DAG must give the same answers (queries must not change anything)
-        again = _observe16(bld.all_nodes())
-        if again != snaps[-1]:
-            raise RuntimeError("asking twice gave different answers on the same DAG")
         return {"snaps": snaps}
 
     from bigtree.dag.construct import dataframe_to_dag, dict_to_dag, list_to_dag
@@ -276,11 +340,27 @@ def run_impl(prop, case):
     cls = _node_class(case.get("cls", "DAGNode"))
     nt = {} if case.get("cls", "DAGNode") == "DAGNode" else {"node_type": cls}
 
+    roots = {}
+
     def rebuild(fn, *args, **kw):
+        """import once, check that the caller's input object is untouched, import the very same object again with the
+        other node class: same graph again, input still untouched"""
+        before = _snapshot(args)
         r = _rebuild(fn, *args, **kw, **nt)
+        if _snapshot(args) != before:
+            raise RuntimeError(f"{fn.__name__} changed the object it was given")
         if r["code"] == 0 and nt and not r.pop("_all_instances", True):
             raise RuntimeError("a rebuilt node is not an instance of the requested node_type")
         r.pop("_all_instances", None)
+        roots[fn.__name__] = r.pop("_root", None)
+        other = {"node_type": _node_class("Sub")} if not nt else {}
+        r2 = _rebuild(fn, *args, **kw, **other)
+        for k in ("_all_instances", "_root"):
+            r2.pop(k, None)
+        if _graph_key(r2) != _graph_key(r):
+            raise RuntimeError(f"{fn.__name__} on the same input object a second time gave a different result")
+        if _snapshot(args) != before:
+            raise RuntimeError(f"{fn.__name__} changed the object it was given (second import)")
         return r
 
     if kind == "export":
@@ -314,6 +394,7 @@ def run_impl(prop, case):
             for nm, ent in od.items():
                 ent = dict(ent)
                 ps = ent.pop(pk, None)
+                ps = list(ps) if ps is not None else None
                 out.append([nm, ps, sorted(((k, _pv(v)) for k, v in ent.items()), key=lambda kv: kv[0])])
             return out
 
@@ -393,10 +474,49 @@ def run_impl(prop, case):
         rl = rebuild(list_to_dag, l_in)
         rd = rebuild(dict_to_dag, d_in, **({"parent_key": pk} if "parent_key" in opt else {}))
         rdf = rebuild(dataframe_to_dag, f_in, **ckw)
+        # export the rebuilt DAGs again with the same options: the same export (None-valued cells folded)
+        def fold(e_list, e_dict, e_df):
+            return (sorted(map(tuple, e_list)) if e_list is not None else None,
+                    sorted((e[0], tuple(sorted(e[1] or [])), tuple((k, v) for k, v in e[2] if v is not None)) for e in e_dict)
+                    if e_dict is not None else None,
+                    sorted(((r_[0], r_[1], tuple(r_[2])) for r_ in e_df), key=repr) if e_df is not None else None)
+
+        if case["mode"] in ("all", "all+dict"):
+            rkw = {"all_attrs": True}
+        else:
+            rkw = {"attr_dict": {v: v for _, v in case["mode"]}}
+        want = fold(o_list, o_dict, o_df)
+        if rl["code"] == 0:
+            got = fold([list(t) for t in dag_to_list(roots["list_to_dag"])], None, None)
+            if got[0] != want[0]:
+                raise RuntimeError("dag_to_list of the DAG rebuilt by list_to_dag differs from the first export")
+        if rd["code"] == 0:
+            got = fold(None, canon_dict(dag_to_dict(roots["dict_to_dag"], **{**dkw, **rkw})), None)
+            if got[1] != want[1]:
+                raise RuntimeError("dag_to_dict of the DAG rebuilt by dict_to_dag differs from the first export")
+        if rdf["code"] == 0:
+            got = fold(None, None, canon_df(dag_to_dataframe(roots["dataframe_to_dag"], **{**fkw, **rkw})))
+            if got[2] != want[2]:
+                raise RuntimeError("dag_to_dataframe of the DAG rebuilt by dataframe_to_dag differs from the first export")
         if _links(nodes) != links:
             raise RuntimeError("exporting changed the links of the source DAG")
         if [sorted((k, repr(v)) for k, v in n.__dict__.items() if not k.startswith("_")) for n in nodes] != attrs_before:
             raise RuntimeError("exporting changed the attributes of the source DAG")
+        # the results obtained first are read again now, after all later calls: they must still say the same
+        o_list, o_dict, o_df = [list(t) for t in ol], canon_dict(od), canon_df(odf)
+        # a caller may do what it likes with its results; exporting again must give the same
+        ol.clear()
+        for ent in od.values():
+            for v in ent.values():
+                if isinstance(v, list):
+                    v.clear()
+            ent.clear()
+        od.clear()
+        if len(odf.columns):
+            odf.drop(odf.index, inplace=True)
+        if [list(t) for t in dag_to_list(start)] != o_list or canon_dict(dag_to_dict(start, **dkw)) != o_dict \
+                or canon_df(dag_to_dataframe(start, **fkw)) != o_df:
+            raise RuntimeError("exporting again after emptying the earlier results gave different results")
         return {"links": links, "list": o_list, "dict": o_dict, "df": o_df, "rl": rl, "rd": rd, "rdf": rdf}
     opt = case.get("opt", {})
     if kind == "rawlist":
@@ -530,6 +650,9 @@ NAME_POOLS = {
     "repeated": ["a", "b", "a", "c", "b", "a", "c", "d", "b"],
 }
 ATTR_KEYS = ["step", "tag", "w", "flag"]
+# attribute names that are affixes / substrings / superstrings of the built-in fields, one-letter names, non-identifiers
+ODD_KEYS = ["n", "a", "m", "e", "na", "am", "me", "nam", "ame", "names", "nam e", "N", "par", "paren", "parentss", "child",
+            "childre", "childrens", "pat", "path", "paths", "p", "c", "my attr", "a-b", "1st", "\u00e9", "sep", "node", "id"]
 
 
 def _is_acyclic(n, edges):
@@ -734,6 +857,9 @@ def _attrs(rng, n, style):
                 a["tag"] = rng.choice(["x", "y", "zz"])
             if rng.random() < 0.5:
                 a["w"] = rng.choice(["1", "2"])
+        elif style == "names":      # the attribute NAMES are the point here
+            for k_ in rng.sample(ODD_KEYS, rng.randint(1, 4)):
+                a[k_] = rng.choice([1, 2, "x", "y"]) if k_ != "N" else rng.randint(0, 2)
         elif style == "falsy":      # 0, "", False, an attribute that exists with the value None, missing attributes
             r = rng.random()
             if r < 0.8:
@@ -798,7 +924,23 @@ def all_small_dags(nmax):
                 yield n, edges
 
 
-def _mode(rng, attr_style):
+def _mode(rng, attr_style, attrs=None):
+    if attr_style == "names":
+        if rng.random() < 0.6:
+            return "all"
+        present = sorted({k for a in (attrs or []) for k in a}) or ["n"]
+        keys = rng.sample(present, rng.randint(1, min(3, len(present))))
+        targets = rng.sample(ODD_KEYS, len(keys))
+        out, used = [], set()
+        for k, t in zip(keys, targets):
+            v = t if rng.random() < 0.5 else k
+            if v in used:
+                v = k if k not in used else t
+            if v in used:
+                continue
+            used.add(v)
+            out.append([k, v])
+        return out
     if attr_style == "none":
         return rng.choice(["all", [], [["step", "step"]]])
     r = rng.random()
@@ -962,7 +1104,7 @@ def _opt(rng, kind):
         o["parent_key"] = rng.choice(["up", "parent nodes", "parents"])
     if kind in ("export", "rawdf"):
         if rng.random() < 0.35:
-            o["name_col"] = rng.choice(["node id", "child", "name"])
+            o["name_col"] = rng.choice(["node id", "child col", "name"])
         if rng.random() < 0.35:
             o["parent_col"] = rng.choice(["from node", "src", "parent"])
         if rng.random() < 0.4:
@@ -981,7 +1123,7 @@ def _export_case(rng, dag, attr_style):
     c = dict(dag)
     c["kind"] = "export"
     c["start"] = rng.randrange(c["n"])
-    c["mode"] = _mode(rng, attr_style)
+    c["mode"] = _mode(rng, attr_style, c["attrs"])
     c["opt"] = _opt(rng, "export")
     c["perm"] = rng.randint(1, 10 ** 6) if rng.random() < 0.5 else 0
     return c
@@ -1086,7 +1228,7 @@ def generate(prop, rng, tier):
     else:
         yield from _exhaustive(prop, rng, 3, 2)
     for i in range(count):
-        attr_style = rng.choice(["total", "total", "partial_str", "partial_int", "falsy", "falsy", "none"])
+        attr_style = rng.choice(["total", "total", "partial_str", "partial_int", "falsy", "falsy", "names", "names", "none"])
         d = gen_dag(rng, nmax=6, pools=("distinct", "distinct", "affix", "special"), attr_style=attr_style)
         c = _export_case(rng, d, attr_style)
         yield "export/" + attr_style + "/" + c["stratum"], c
@@ -1245,11 +1387,15 @@ def rule(prop):
                 "every acyclic edge set on <= 3 (quick) / <= 4 (thorough) "
                 "nodes in several insertion orders + random shapes sparse/mixed/dense/chain/fan-in/fan-out/diamond x name pools "
                 "distinct/affix/special/repeated; observed from every start node and every ordered pair; "
-                "node class DAGNode or a user subclass; children handed over as list / tuple / generator / dict view; links must be "
-                "unchanged by the queries, iterators advanced in turn must agree with separate runs, asking twice must agree; "
+                "node class DAGNode or a user subclass; children handed over as list / tuple / generator / dict view; per snapshot "
+                "all results (every start node, every ordered pair) are kept alive and read only after the last query, then the "
+                "caller's lists are emptied and every query is repeated and must agree; links must be unchanged by the queries, "
+                "iterators advanced in turn must agree with separate runs; "
                 "non-trivial = >= 3 nodes and >= 2 edges; distinct by canonical JSON hash")
     return ("export cases: the same DAG families (every entry point, DAGNode or a subclass passed as node_type) with attribute "
-            "assignments total / partial / none / falsy (0, '', False, explicit None), any start node, an attribute selection "
+            "assignments total / partial / none / falsy (0, '', False, explicit None) / odd attribute NAMES (one letter, affixes and "
+            "substrings and superstrings of name / parents / children / path, blanks and other non-identifier characters, under "
+            "all_attrs and as attr_dict keys and targets), any start node, an attribute selection "
             "(all_attrs, all_attrs together with an attr_dict, or an attr_dict with renamed non-identifier keys), default and "
             "non-default parent_key / name_col / parent_col, exported in the three formats, cross-checked from every start node, "
             "and rebuilt by the matching constructor from the export as is or re-ordered (entries, parents, rows shuffled; frame "
@@ -1292,10 +1438,13 @@ def partial_clauses(prop):
         "exercised under C16 only); the single-node DAG (no edge) exports to nothing, as documented, and is outside the theorems",
         "not exercised: ASSERTIONS switched off (the cycle refusal lives in the guarded setter checks), attribute values other "
         "than int / str / bool / None (floats, containers), attribute_cols naming a strict subset of the columns, an attribute "
-        "exported under the key 'name', dag_to_dot, polars frames, exports of DAGs with more than 7 nodes",
+        "exported under the very key used for the name / parent column or the parent key (or literally 'name', 'parent', "
+        "'parents', 'children'), attribute names starting with '_' (excluded by design), dag_to_dot, polars frames, exports of DAGs with more than 7 nodes",
         "checked inside the harness rather than in Coq: exports started from every node of the component equal the export from "
         "the case's start node (as multisets), exporting twice gives the same result, the source DAG (links and attributes) is "
-        "unchanged, rebuilt nodes are instances of the requested node_type",
+        "unchanged, rebuilt nodes are instances of the requested node_type, every constructor leaves the object it was given "
+        "unchanged (deep snapshot before / after), importing the very same object a second time (with the other node class) "
+        "gives the same graph, re-exporting a rebuilt DAG with the same options gives the first export again",
     ]
 
 
